@@ -364,6 +364,15 @@ HOSTILE = {
 }
 
 
+# quoted cookie values with every kind of backslash escape a client can type: octal-looking digits that are not octal
+# (8, 9), values above \\377, short and long digit runs, escapes of escapes
+import itertools as _it
+
+HOSTILE["Cookie"] += ['a="\\%s"' % "".join(t) for t in _it.product("0389", repeat=3)] + [
+    'a="\\8"', 'a="\\18"', 'a="x\\189y"', 'id="price\\099"; b="\\800"', 'a="\\\\\\189"', 'a="\\477"', 'a="\\777"', 'a="\\0000"', 'a="\\1234567890"', 'a="\\x41"', 'a="\\u0041"',
+    'a="\\"; b="\\999"', 'a="\\\xff"', 'a="\\12\xe9"', "a=\\189", 'a="\\٣٣٣"'.encode("utf-8").decode("latin-1"), 'a="\\²³¹"'.encode("latin-1").decode("latin-1")]
+
+
 CODEC_NAMES = ["undefined", "punycode", "idna", "hex", "hex_codec", "base64", "zlib", "bz2", "rot13", "quopri", "uu", "unicode_escape", "raw_unicode_escape", "utf-16", "utf-32", "utf-7",
                "utf-8-sig", "cp037", "mbcs", "oem", "nope", "", " ", "utf-8\x00", "\x00", "latin-1", "ascii", "charmap", "palmos", "big5", "shift_jis", "iso2022_jp", "hz", "unicode_internal", "string_escape",
                "a" * 300, "utf_8;x", "\xe9"]
